@@ -12,4 +12,4 @@ SPLIT = {"par2": [("_none", "not fa and not fb"), ("_a", "fa and not fb"), ("_b"
                        for t, c in (("_ok", "not fa and not fb"), ("_a", "fa and not fb"), ("_b", "fb and not fa"))
                        if not (s != 0 and t == "_b")],
          "map_items": [("_ok", "failing == -1"), ("_fail", "failing >= 0 and n >= 1")]}
-scn.register(globals(), {"C03"}, ["seq_chain", "two_execs", "par2", "par_pass_task", "par_catch", "par_retry", "map_items"], SPLIT)
+scn.register(globals(), {"C03"}, ["seq_chain", "seq_misc", "two_execs", "par2", "par_pass_task", "par_catch", "par_retry", "map_items"], SPLIT)
